@@ -36,6 +36,13 @@ Scope notes.
 * `scanMantissa` is only ever called with base 2, 8, 10 or 16, so it stops at end of input
   (`digitVal` = 16); the `[]` case of the loops below relies on that.
 
+* Known genuine divergence of the two Go automata (confirmed on the real code): spellings
+  beginning with "0_" such as "0_1.5", "0_0.", "0_1e0", "0_1.K" are accepted by
+  `literal.ParseNum` (its "0 or float" branch runs `scanMantissa(10)` unconditionally and jumps
+  to `fraction:` before the "illegal integer number" check), whereas the scanner only enters
+  `scanMantissa` there when `s.ch` is '0'..'9' and so lexes INT "0" followed by an identifier.
+  `zeroUnderscore` names that region; see Proofs/NumLit.lean.
+
 Core Lean only.
 -/
 namespace CueVerif.NumLit
